@@ -14,7 +14,7 @@ RULE = (
     "state gives chi_0,chi_1,...; the documented stopping rule is evaluated on them (comparisons within 1e-9 of their threshold are ambiguous: "
     "both outcomes accepted). Every call is also executed on a fresh graph rebuilt from the state before the call with the opposite verbose "
     "flag: reports and poses must be identical (no hidden state, printing does not alter results; this subsumes splitting a run into consecutive "
-    "calls). Non-trivial = early stop at 1 < k < max_iter, stop exactly at max_iter with converged=True, a run whose chi2 increased at some "
+    "calls); the single steps are additionally replayed through graphs rebuilt from scratch before every iteration (nothing may be carried across iterations). Non-trivial = early stop at 1 < k < max_iter, stop exactly at max_iter with converged=True, a run whose chi2 increased at some "
     "iteration, or a history of >= 2 calls."
 )
 BUDGET = {"quick": 16 * 300, "thorough": 16 * 4000}
@@ -148,6 +148,20 @@ def check(case, ctx):
             GC.optimize_quiet(M, tol=0.0, max_iter=1, fix_first_pose=False, verbose=False)
             chis.append(RG.chi2(M))
             states.append(state_bits(M)[0])
+        # ---- second model: every single iteration is executed on a graph rebuilt from scratch (fresh edge, vertex and
+        #      graph objects), so nothing can be carried over from one iteration to the next; it must agree with the
+        #      single-step clone, which keeps its objects
+        Fk = rebuild(case, G)
+        if ff:
+            Fk._vertices[0].fixed = True
+        fresh_states = [state_bits(Fk)[0]]
+        for _ in range(min(max_iter, 6)):
+            GC.optimize_quiet(Fk, tol=0.0, max_iter=1, fix_first_pose=False, verbose=False)
+            fresh_states.append(state_bits(Fk)[0])
+            Fk = rebuild(case, Fk)
+        for j, (sa, sb) in enumerate(zip(states, fresh_states)):
+            if sa != sb:
+                return ctx.fail("state-carried-across-iterations", "call %d: after %d single iterations the long-lived clone and a chain of freshly rebuilt graphs disagree" % (ci, j))
         # ---- the call under test, and the same call on a fresh graph with the opposite verbose flag
         ret, out = GC.optimize_quiet(G, tol=tol, max_iter=max_iter, fix_first_pose=ff, verbose=verbose)
         ret2, out2 = GC.optimize_quiet(F, tol=tol, max_iter=max_iter, fix_first_pose=ff, verbose=not verbose)
